@@ -30,4 +30,11 @@ TEXT["C15"] = {
             "constructed; zero/oversized record sizes refused. Correspondence: honest streams x every bit flip, truncation, "
             "extension, swaps, size edits; property-level judge (prefix of authenticated data + error class).",
     "note": COMMON_NOTE + "Collision-resistance of SHA-256 is not claimed: theorems deliver collisions as disjuncts."}
+TEXT["C16"] = {
+    "text": "Theorems: serialize-then-parse is the identity on every valid parameterised list / list of lists, output "
+            "independent of parameter order, invalid values refused, parse results are valid (so parse-serialize-parse is "
+            "the identity), parser vs. an inductive draft-09 grammar; model compared with the real parser/writer on all "
+            "strings up to length 4 (6 thorough) over a 14-character alphabet plus generated/mutated headers and values.",
+    "note": COMMON_NOTE + "strconv.Quote/FormatInt/ParseInt and encoding/base64 are modelled (base64 validated "
+            "against Go's by the C14 stream). The draft's integer digit cap is not demanded (text unavailable offline)."}
 NOT_YET = {}
